@@ -88,6 +88,16 @@ CHECKS = {
         ref="3/C10",
         technique="deterministic simulation: discrete-event clocks with skew/jump faults behind the time seam, executable reference model as oracle",
     ),
+    "C14": dict(
+        level="exploration",
+        text=("key distribution as a small distributed system in discrete-event time: an owner's rotating private key set "
+              "(incl. kid re-binding), a JWKS directory with delay / loss / reordering / stale responses, peers that rebuild "
+              "their set with import_key_set, JWS owner->peer and JWE peer->owner tokens with independent wire delays, foreign "
+              "tokens without kid, random.choice behind a seam (candidates recorded, every pick forced); every produce/consume "
+              "is judged by the resolution model on the consumer's current set, plus a bounded-liveness phase after heal."),
+        ref="3/C14",
+        technique="deterministic simulation: discrete-event key-distribution world with directory faults and a choice seam, reference resolution model, bounded liveness after heal",
+    ),
     "C20": dict(
         level="exploration",
         text=("T = 2..32 real caller threads run operations from a 70-entry catalogue over one shared world (eagerly and lazily "
